@@ -35,6 +35,8 @@ const (
 	bodySize   = 8192
 )
 
+var errPortTaken = errors.New("the reserved port was taken by another process")
+
 type drainCase struct {
 	ID       string `json:"id"`
 	DrainMs  int    `json:"drain_ms"`
@@ -78,8 +80,11 @@ func runDrainCase(c drainCase) (drainObs, error) {
 		return obs, err
 	}
 	var shutRet atomic.Int64 // unix nanos of the first Shutdown return (the old server's)
+	shutCalled := make(chan struct{})
+	var shutOnce sync.Once
 	creator := func(a string, h http.Handler, cfg *httpserver.Config) httpserver.HttpServer {
-		return &timedSrv{inner: httpserver.DefaultServerCreator(a, h, cfg), ret: &shutRet}
+		return &timedSrv{inner: httpserver.DefaultServerCreator(a, h, cfg), ret: &shutRet,
+			called: func() { shutOnce.Do(func() { close(shutCalled) }) }}
 	}
 	mk := func(drain int, read time.Duration) *httpserver.Config {
 		cfg, err := httpserver.NewConfig(addr, httpserver.Routes{*rt1},
@@ -103,6 +108,14 @@ func runDrainCase(c drainCase) (drainObs, error) {
 	go func() { runRes <- runner.Run(ctx) }()
 	deadline := time.Now().Add(8 * time.Second)
 	for !runner.IsRunning() {
+		select {
+		case err := <-runRes:
+			if err != nil && strings.Contains(err.Error(), "address already in use") {
+				return obs, errPortTaken
+			}
+			return obs, fmt.Errorf("Run returned before Running: %v", err)
+		default:
+		}
 		if time.Now().After(deadline) {
 			return obs, fmt.Errorf("runner did not reach Running: %s", runner.GetState())
 		}
@@ -140,12 +153,14 @@ func runDrainCase(c drainCase) (drainObs, error) {
 	effDrain := c.DrainMs
 	t0 := time.Now()
 	trigDone := make(chan struct{})
+	var trigRet atomic.Int64 // the instant the trigger call returned, taken in its own goroutine
+	fin := func() { trigRet.Store(time.Now().UnixNano()); close(trigDone) }
 	switch c.Trigger {
 	case "stop":
-		go func() { runner.Stop(); close(trigDone) }()
+		go func() { runner.Stop(); fin() }()
 	case "cancel":
 		cancel()
-		go func() { err := <-runRes; runRes <- err; close(trigDone) }()
+		go func() { err := <-runRes; runRes <- err; fin() }()
 	case "reload":
 		nd := c.DrainMs
 		if c.NewDrain > 0 {
@@ -153,16 +168,22 @@ func runDrainCase(c drainCase) (drainObs, error) {
 			effDrain = nd // stopServer reads DrainTimeout from r.config, which already holds the NEW configuration
 		}
 		cur.Store(mk(nd, 6*time.Second))
-		go func() { runner.Reload(context.Background()); close(trigDone) }()
+		go func() { runner.Reload(context.Background()); fin() }()
 	}
-	// C14_no_new: a dial during the drain must be refused (a few ms after the trigger)
+	// C14_no_new: once Shutdown has been CALLED (observed by the wrapper) a dial must be refused.  20 ms are
+	// left for the call to reach closeListeners under load.
+	dialChecked := false
 	if len(c.Ds) > 0 {
-		time.Sleep(3 * time.Millisecond)
 		select {
-		case <-trigDone:
-			obs.DialAfter = false
-		default:
-			obs.DialAfter = dialOK(addr)
+		case <-shutCalled:
+			time.Sleep(20 * time.Millisecond)
+			// on a Reload the NEW server binds the same address as soon as the old Shutdown has returned
+			skip := c.Trigger == "reload" && shutRet.Load() != 0
+			if !skip {
+				obs.DialAfter = dialOK(addr)
+				dialChecked = true
+			}
+		case <-time.After(3 * time.Second):
 		}
 	}
 	select {
@@ -170,7 +191,7 @@ func runDrainCase(c drainCase) (drainObs, error) {
 	case <-time.After(15 * time.Second):
 		return obs, errors.New("trigger did not return within 15 s")
 	}
-	t1 := time.Now()
+	t1 := time.Unix(0, trigRet.Load())
 	if c.Trigger == "reload" && shutRet.Load() != 0 {
 		// a Reload goes on to boot the new server (>= one 100 ms probe tick): the drain ends when the old
 		// server's Shutdown returns
@@ -238,12 +259,12 @@ func runDrainCase(c drainCase) (drainObs, error) {
 	emitLine("DR\t%s\t%d\t%d\t%d\t%d\t%s\t%s\t%d\t%s\t%s", c.ID, effDrain, obs.Gap, drainBand, drainSlack,
 		strings.Join(ds, ","), okS, obs.T, strings.Join(fl, ","), c.Trigger)
 	// property predicates directly on the observables
-	if len(c.Ds) > 0 {
+	if dialChecked {
 		v := "ok"
 		if obs.DialAfter {
 			v = "FAIL"
 		}
-		emitLine("PROP\t%s\tc14-no-new %s dial %d ms after the trigger succeeded=%v", c.ID, v, 3, obs.DialAfter)
+		emitLine("PROP\t%s\tc14-no-new %s dial %d ms after Shutdown was called succeeded=%v", c.ID, v, 20, obs.DialAfter)
 	}
 	for i, rem := range obs.Rem {
 		if rem+drainBand < effDrain {
@@ -283,12 +304,14 @@ func runDrainCase(c drainCase) (drainObs, error) {
 
 // timedSrv records when the first Shutdown of a history returned.
 type timedSrv struct {
-	inner httpserver.HttpServer
-	ret   *atomic.Int64
+	inner  httpserver.HttpServer
+	ret    *atomic.Int64
+	called func()
 }
 
 func (s *timedSrv) ListenAndServe() error { return s.inner.ListenAndServe() }
 func (s *timedSrv) Shutdown(ctx context.Context) error {
+	s.called()
 	err := s.inner.Shutdown(ctx)
 	s.ret.CompareAndSwap(0, time.Now().UnixNano())
 	return err
@@ -383,6 +406,9 @@ func runDrain() {
 			defer wg.Done()
 			defer func() { <-sem }()
 			obs, err := runDrainCase(c)
+			for try := 0; err != nil && errors.Is(err, errPortTaken) && try < 3; try++ {
+				obs, err = runDrainCase(c) // another process took the reserved port: new port, same case
+			}
 			mu.Lock()
 			defer mu.Unlock()
 			if err != nil {
